@@ -96,7 +96,9 @@ def one_run(ck, rng, stats, mode, conf_text, stdin_msg=None, samples=None, varia
         except OSError:
             pass
     bad = None
-    if diff:
+    if rc < 0 or rc > 100:
+        bad = 'mdsort did not terminate normally (status %d)' % rc
+    elif diff:
         bad = 'the sandbox changed: %s' % sorted(diff)[:4]
     elif dchanged:
         bad = 'the modification time of director%s %s changed (something was created or removed there)' % ('y' if len(dchanged) == 1 else 'ies', dchanged[:4])
@@ -132,9 +134,44 @@ def one_run(ck, rng, stats, mode, conf_text, stdin_msg=None, samples=None, varia
     sb.cleanup()
 
 
+def broken_stdin_runs(ck, stats):
+    """stdin mode when the message cannot be read (stdin closed, stdin a directory): status 75 and nothing left in TMPDIR,
+    with -d and without"""
+    import subprocess
+    exe = os.path.join(common.scratch_build('plain'), 'mdsort')
+    for mode in (['-d'], [], ['-d', '-vv']):
+        for how in ('closed', 'directory'):
+            sb = mdrun.Sandbox()
+            dst = sb.maildir('dst')
+            conf = sb.write_conf(('stdin {\n\tmatch all move "%s"\n}\n' % dst).encode())
+            env = sb.env({})
+            before = sb.tree()
+            if how == 'closed':
+                p_ = subprocess.run([exe, '-f', conf] + mode + ['-'], cwd=sb.root, env=env, stdin=subprocess.DEVNULL, capture_output=True,
+                                    preexec_fn=lambda: os.close(0), timeout=30)
+            else:
+                fd = os.open(sb.root, os.O_RDONLY)
+                try:
+                    p_ = subprocess.run([exe, '-f', conf] + mode + ['-'], cwd=sb.root, env=env, stdin=fd, capture_output=True, timeout=30)
+                finally:
+                    os.close(fd)
+            stats['runs'] += 1; stats['broken_stdin'] = stats.get('broken_stdin', 0) + 1
+            after = sb.tree()
+            diff = sorted(k for k in set(before) | set(after) if before.get(k) != after.get(k))
+            rc = p_.returncode
+            if diff:
+                ck.violation('stdin %s, mdsort %s -: left behind / changed %r (exit %d)' % (how, ' '.join(mode), diff[:4], rc),
+                             {'stage': 'broken-stdin', 'how': how, 'mode': mode, 'exit': rc, 'stderr': p_.stderr[-300:].decode(errors='replace')})
+            elif rc != 75:
+                ck.violation('stdin %s, mdsort %s -: exit status %d instead of 75' % (how, ' '.join(mode), rc),
+                             {'stage': 'broken-stdin', 'how': how, 'mode': mode, 'exit': rc, 'stderr': p_.stderr[-300:].decode(errors='replace')})
+            sb.cleanup()
+
+
 def run(ck):
     rng = ck.rng
     stats = dict(runs=0, viol=0, calls=0, nontrivial=0)
+    broken_stdin_runs(ck, stats)
     samples = []
     n = 25 if ck.tier == 'quick' else 400
     confs = []
@@ -148,6 +185,7 @@ def run(ck):
         one_run(ck, rng, stats, '-n', c)
         if idx % 5 == 0 or idx >= n:
             one_run(ck, rng, stats, rng.choice(['-n -d', '-d -n', '-dn', '-nd', '-n -v', '-vn']), c)
+            one_run(ck, rng, stats, rng.choice(['-d -vv', '-d -v -v', '-dvvv', '-vvd', '-d -v']), c)
         if idx % 4 == 0 or idx >= n:
             one_run(ck, rng, stats, '-d', c, variant='devfull')
             one_run(ck, rng, stats, '-d', c, variant='dtunknown')
@@ -161,6 +199,7 @@ def run(ck):
         one_run(ck, rng, stats, '-d', f, stdin_msg=msg)
         one_run(ck, rng, stats, '-n', f, stdin_msg=msg)
         one_run(ck, rng, stats, rng.choice(['-n -d', '-dn', '-nd']), f, stdin_msg=msg)
+        one_run(ck, rng, stats, rng.choice(['-d -vv', '-dvvv', '-d -v -v']), f, stdin_msg=msg)
         one_run(ck, rng, stats, '-d', f, stdin_msg=msg, variant='dtunknown')
         one_run(ck, rng, stats, '-d', f, stdin_msg=msg, variant='devfull')
     # configurations whose real run would fail, in both modes
@@ -176,7 +215,7 @@ def run(ck):
         'distinct_nontrivial': stats['nontrivial'],
         'rule': 'random rule trees (confgen: and/or/!/parentheses/unparenthesised chains, nested blocks, actions move/flag/flags/label/add-header/discard/exec, '
                 'pass/break) plus 7 special configurations (missing destination, invalid back-reference, command condition + exec stdin + label, exec stdin body, '
-                'date+isdirectory, attachment block, two maildirs) over a population of 9 messages in new/cur; each with -d and with -n, a fifth also with -n and -d / -v combined in either order and spelling; stdin variants; 7 configurations whose real run '
+                'date+isdirectory, attachment block, two maildirs) over a population of 9 messages in new/cur; each with -d and with -n, a fifth also with -n and -d / -v combined in either order and spelling and with -d and repeated -v; stdin variants; 7 configurations whose real run '
                 'would fail (path too long after interpolation / as configured, missing destination, invalid back-reference, exec) in maildir and stdin mode. '
                 'non-trivial = a run that opened at least one message; distinct = distinct runs',
         'samples': samples,
